@@ -108,11 +108,41 @@ fn lossless(text: &str, tree: &LuaSyntaxTree) -> Option<Value> {
     }))
 }
 
+/// Watchdog for hangs (C02): the working thread publishes the index of the case it is parsing; if one case
+/// takes longer than HANG_SECS the watchdog reports it as {"fail":"hang"} and ends the process (the remaining
+/// cases stay unjudged, which the driver notices from the missing summary).
+static CURRENT_CASE: std::sync::atomic::AtomicI64 = std::sync::atomic::AtomicI64::new(-1);
+const HANG_SECS: u64 = 20;
+
+fn start_watchdog(cases: &[Value]) {
+    use std::sync::atomic::Ordering;
+    let cases: Vec<Value> = cases.to_vec();
+    std::thread::spawn(move || {
+        let mut last = -2i64;
+        let mut since = std::time::Instant::now();
+        loop {
+            std::thread::sleep(std::time::Duration::from_millis(250));
+            let cur = CURRENT_CASE.load(Ordering::SeqCst);
+            if cur != last {
+                last = cur;
+                since = std::time::Instant::now();
+            } else if cur >= 0 && since.elapsed().as_secs() >= HANG_SECS {
+                let case = &cases[cur as usize];
+                let text = case.get("l").and_then(|l| l.as_array()).map(|l| concretise(l));
+                emit(&json!({"fail":"hang","case_index":cur,"l":case.get("l"),"text":text,"seconds":HANG_SECS}));
+                std::process::exit(0);
+            }
+        }
+    });
+}
+
 fn mode_soup(cases: &[Value]) {
+    start_watchdog(cases);
     let mut parses = 0u64;
     let mut fails = 0u64;
     let mut panics = 0u64;
-    for case in cases {
+    for (ci, case) in cases.iter().enumerate() {
+        CURRENT_CASE.store(ci as i64, std::sync::atomic::Ordering::SeqCst);
         let l = case["l"].as_array().expect("l");
         let text = concretise(l);
         // group identical failures over configs
@@ -146,6 +176,7 @@ fn mode_soup(cases: &[Value]) {
                          "l": case["l"], "text": text, "configs": cfgs, "obs": obs}));
         }
     }
+    CURRENT_CASE.store(-1, std::sync::atomic::Ordering::SeqCst);
     emit(&json!({"summary": {"cases": cases.len(), "parses": parses, "fails": fails, "panics": panics}}));
 }
 
